@@ -160,6 +160,7 @@ INDICES = {
     "all": ("...", lambda: ..., lambda s: True),
     "s1": ("1:", lambda: slice(1, None), lambda s: len(s) >= 1 and s[0] >= 2),
     "i0": ("0", lambda: 0, lambda s: len(s) >= 1),
+    "rev": ("::-1", lambda: slice(None, None, -1), lambda s: len(s) >= 1 and s[0] >= 2),
     "i_1": ("-1", lambda: -1, lambda s: len(s) >= 1 and s[0] >= 2),
     "st2": ("::2", lambda: slice(None, None, 2), lambda s: len(s) >= 1 and s[0] >= 3),
     "c0": (":, 0", lambda: (slice(None), 0), lambda s: len(s) == 2),
@@ -349,7 +350,8 @@ class Model:
     def _out(self, tgt, uf, a, b, mask):
         x = self.value_of(a)
         y = self.value_of(b)
-        f = {"add": np.add, "multiply": np.multiply, "subtract": np.subtract}[uf]
+        f = {"add": np.add, "multiply": np.multiply, "subtract": np.subtract, "positive": lambda p, q: +p}[uf]
+        mask = _phase(mask)
         if mask is None:
             r = f(x, y)
             self.a[tgt][...] = r
@@ -447,6 +449,11 @@ class Model:
         return name
 
 
+def _phase(mask):
+    """mask phases 't0', 't1', ... denote the same mask as 0, 1, ... handed to the ufunc as a tensor"""
+    return int(mask[1:]) if isinstance(mask, str) and mask[:1] == "t" and mask[1:].isdigit() else mask
+
+
 class _Sub(np.ndarray):
     pass
 
@@ -525,10 +532,14 @@ class Impl:
     def _out(self, tgt, uf, a, b, mask):
         mg = self.mg
         x, y = self.value_of(a), self.value_of(b)
+        args = (x,) if uf == "positive" else (x, y)
         if mask is None:
-            r = getattr(mg, uf)(x, y, out=self.t[tgt])
+            r = getattr(mg, uf)(*args, out=self.t[tgt])
         else:
-            r = getattr(np, uf)(x, y, out=self.t[tgt], where=alt_mask(self.t[tgt].shape, mask))
+            m = alt_mask(self.t[tgt].shape, _phase(mask))
+            if _phase(mask) != mask:
+                m = mg.tensor(m)  # the mask handed over as a tensor
+            r = getattr(np, uf)(*args, out=self.t[tgt], where=m)
         self.ret = r
 
     def _setshape(self, tgt, shape):
@@ -634,9 +645,10 @@ def render(st):
         return "%s %s %s" % (st[1], sym, "2" if st[2] == "ipow2" else render_val(st[3]))
     if k == "out":
         if st[5] is None:
-            return "mg.%s(%s, %s, out=%s)" % (st[2], render_val(st[3]), render_val(st[4]), st[1])
-        return "np.%s(%s, %s, out=%s, where=alt_mask(%s.shape, %r))" % (
-            st[2], render_val(st[3]), render_val(st[4]), st[1], st[1], st[5])
+            return "mg.%s(%s, out=%s)" % (st[2], render_val(st[3]) if st[2] == "positive" else "%s, %s" % (render_val(st[3]), render_val(st[4])), st[1])
+        ops_ = render_val(st[3]) if st[2] == "positive" else "%s, %s" % (render_val(st[3]), render_val(st[4]))
+        msk = "alt_mask(%s.shape, %r)" % (st[1], _phase(st[5]))
+        return "np.%s(%s, out=%s, where=%s)" % (st[2], ops_, st[1], msk if _phase(st[5]) == st[5] else "mg.tensor(%s)" % msk)
     if k == "setshape":
         return "%s.shape = %r" % (st[1], tuple(st[2]))
     if k == "failop":
